@@ -67,3 +67,18 @@ Theorem C09_sqrt_sum_le_exact : forall p q t, (0 <= p)%R -> (0 <= q)%R ->
   ((sqrt p + sqrt q <= t)%R <-> (0 <= t /\ p + q <= t * t /\ 4 * p * q <= (t * t - p - q) * (t * t - p - q))%R).
 Proof. exact sqrt_sum_le_iff. Qed.
 Print Assumptions C09_sqrt_sum_le_exact.
+
+(* the conic problem that EllipsoidalConfidenceRegion.is_dominated POSES, regenerated from the source (Gen_ell.v: membership
+   norm(sqrtm(inv(sigma)) (mu - c)) <= alpha for both regions; per facet, minimise w.(muy - mux); reject when the minimum is
+   below -slack): it holds exactly when, for every facet, the closed form the decider evaluates is at least -slack
+   (M_k the inverse of the precision square root P_k, i.e. a square root of sigma_k) *)
+From VOPy Require Import EllSpec EllPosed.
+From VOPyGen Require Import Gen_ell.
+Theorem C09_posed_ellipsoid_problem_has_the_closed_form : forall n W E1 E2 M1 M2 slack,
+  wf_ell n E1 M1 -> wf_ell n E2 M2 -> (forall w, In w W -> length w = n) -> length slack = length W ->
+  (gen_ell_is_dominated W E1 E2 slack <->
+   forall k w s, nth_error W k = Some w -> nth_error slack k = Some s ->
+     (- s <= rdot w (e_center E2) - rdot w (e_center E1)
+            - e_alpha E1 * sqrt (rnorm2 (rtmatvec M1 w)) - e_alpha E2 * sqrt (rnorm2 (rtmatvec M2 w)))%R).
+Proof. exact gen_ell_is_dominated_closed_form. Qed.
+Print Assumptions C09_posed_ellipsoid_problem_has_the_closed_form.
